@@ -30,7 +30,10 @@ def snapshot(results):
     return out
 
 
-def make_results(d, lang, shape, batch, nbest, n, minimal=False, extra=False, unsorted=False):
+PUNCT = dict(leaf=[',', 'NP', '.', 'conj'], node=['NP', 'S[dcl]', 'NP\\NP'])      # punctuation categories at leaves (formats treat them specially)
+
+
+def make_results(d, lang, shape, batch, nbest, n, minimal=False, extra=False, unsorted=False, punct=False):
     from depccg.tree import ScoredTree, Tree
     from depccg.cat import Category
     res = []
@@ -41,7 +44,7 @@ def make_results(d, lang, shape, batch, nbest, n, minimal=False, extra=False, un
                 if s == 0 and k == 0 and i == 0 and n:
                     return dd.string('word', n, TOKEN)
                 return 'w%d' % i
-            tb = TreeBuilder(d, lang, word=w, heads=(k % 2 == 0), labels=s + k, prefix='t%d_%d' % (s, k))
+            tb = TreeBuilder(d, lang, word=w, heads=(k % 2 == 0), labels=s + k, prefix='t%d_%d' % (s, k), cats=(PUNCT if punct else None))
             t = tb.build(shape)
             if extra:
                 # tokens carrying further attributes, some named like the formats' own fields
@@ -61,12 +64,12 @@ def make_results(d, lang, shape, batch, nbest, n, minimal=False, extra=False, un
     return res
 
 
-def h_seq(d, lang, shape, batch, nbest, n, seqlen, first=None, minimal=False, extra=False, unsorted=False):
+def h_seq(d, lang, shape, batch, nbest, n, seqlen, first=None, minimal=False, extra=False, unsorted=False, punct=False):
     from depccg.printer import to_string
     from depccg.lang import set_global_language_to
     set_global_language_to(lang)
     fmts = FORMATS[lang]
-    res = make_results(d, lang, shape, batch, nbest, n, minimal, extra, unsorted)
+    res = make_results(d, lang, shape, batch, nbest, n, minimal, extra, unsorted, punct)
     snap0 = snapshot(res)
     out = None
     seq = []
@@ -79,7 +82,7 @@ def h_seq(d, lang, shape, batch, nbest, n, seqlen, first=None, minimal=False, ex
             return ('render-raises.%s.after-%s:%s' % (f, '+'.join(seq[:-1]) or 'nothing', type(e).__name__),)
         if snapshot(res) != snap0:
             return ('mutated-by.' + f, seq)
-    fresh = make_results(_Again(d), lang, shape, batch, nbest, n, minimal, extra, unsorted)
+    fresh = make_results(_Again(d), lang, shape, batch, nbest, n, minimal, extra, unsorted, punct)
     try:
         out2 = to_string(fresh, format=seq[-1])
     except Exception as e:
@@ -132,6 +135,9 @@ def obligations(tier):
                 if (batch, nbest) == (2, 2) and s == SHAPES[2][0]:
                     yield Obligation('C18.seq[%s,%s,batch=2x2,n-best lists not in score order,len=2]' % (lang, shape_name(s)), 'h_seq',
                                      dict(lang=lang, shape=s, batch=2, nbest=2, n=0, seqlen=2, unsorted=True), cost=10)
+                if (batch, nbest) == (1, 1) and lang == 'en' and s in (SHAPES[2][0], SHAPES[3][0]):
+                    yield Obligation('C18.seq[%s,%s,punctuation categories at the leaves,len=2]' % (lang, shape_name(s)), 'h_seq',
+                                     dict(lang=lang, shape=s, batch=1, nbest=1, n=0, seqlen=2, punct=True), cost=10)
                 if (batch, nbest) == (1, 1) and s in (SHAPES[1][0], SHAPES[2][0]):
                     yield Obligation('C18.seq[%s,%s,word-only tokens + failed sentence,len=2]' % (lang, shape_name(s)), 'h_seq',
                                      dict(lang=lang, shape=s, batch=1, nbest=1, n=0, seqlen=2, minimal=True), cost=10)
